@@ -2,8 +2,11 @@
     Property theorems only: each is closed by [exact] of a lemma proved under Proofs/, followed by
     [Print Assumptions]. Models: Model/Varint.v, Model/PacketNumber.v (tied to the code by the
     correspondence check on every run). *)
-From QV Require Import Lib.Tac Lib.Bytes Lib.Corr Model.Varint Model.PacketNumber
-  Proofs.VarintProofs Proofs.PnProofs.
+From QV Require Import Lib.Tac Lib.Bytes Lib.Corr Model.Varint Model.PacketNumber Model.Frames
+  Proofs.VarintProofs Proofs.PnProofs Proofs.FramesProofs Proofs.FramesTotal Proofs.FramesIter.
+From QV Require Model.Header Proofs.HeaderProofs Proofs.FramesRanges gen.Constants.
+From QV Require Model.TParams Proofs.TParamsProofs Model.Token Proofs.TokenProofs.
+From Coq Require Import Permutation.
 Open Scope Z_scope.
 
 (** Every encodable value round-trips, with arbitrary trailing bytes left untouched. *)
@@ -70,3 +73,247 @@ Example C10_pn_example :
   PacketNumber.encode 65836 65000 = Some (2%nat, [1; 44]) /\
   expand 2 300 65000 = 65836.
 Proof. vm_compute. split; reflexivity. Qed.
+
+(** * Frames (Model/Frames.v: frame.rs encoders, [frame::Iter], [scan_ack_blocks], [AckIter]) *)
+
+(** Every well-formed frame value other than ACK (next theorem) and CLOSE (the one after) is
+    encodable, and [Iter::try_next] on the encoding followed by arbitrary bytes [r] yields the
+    frame and continues exactly at [r]. STREAM / DATAGRAM frames encoded without a length field
+    extend to the end of the packet: they absorb [r] and leave nothing. *)
+Theorem C10_frame_roundtrip : forall withlen max_len f,
+  wf_frame f = true -> is_close f = false ->
+  exists b, encode_frame withlen max_len f = Some b /\
+    forall r, try_next (b ++ r) =
+              DOk (absorb withlen f r) (if self_delimiting withlen f then r else []).
+Proof. exact frame_roundtrip_fixed. Qed.
+Print Assumptions C10_frame_roundtrip.
+
+(** [Ack::encode] over the ranges of an [ArrayRangeSet] (ascending, half-open, separated):
+    the decoder yields an ACK whose [largest] is the top of the highest range and whose
+    [AckIter] walk returns exactly the encoded ranges, highest first, as inclusive ranges. *)
+Theorem C10_ack_ranges_roundtrip : forall delay rs ecn,
+  in62 delay = true -> wf_ranges rs = true -> wf_ecn ecn = true ->
+  exists b largest additional,
+    encode_ack delay rs ecn = Some b /\
+    (exists lo, hd_error (rev rs) = Some (lo, largest + 1)) /\
+    (forall r, try_next (b ++ r) = DOk (Ack largest delay additional ecn) r) /\
+    ack_ranges largest additional = AOk (map incl_range (rev rs)).
+Proof. exact ack_roundtrip. Qed.
+Print Assumptions C10_ack_ranges_roundtrip.
+
+(** [Close::encode(max_len)]: when [max_len] covers the bytes the encoder reserves
+    ([close_fits]; otherwise the Rust subtraction underflows) the frame round-trips with its
+    reason cut to a prefix of length [n], and the encoded frame never exceeds [max_len].
+    (The last conjunct was false of the code as found: the encoder reserved 3 bytes for type and
+    error code whatever the size of the code; replayed on a real connection — a 1458-byte datagram
+    on a 1452-byte path — and repaired by the [fix:] commit; the model follows the repaired code.) *)
+Theorem C10_close_roundtrip : forall withlen max_len f,
+  wf_frame f = true -> is_close f = true -> close_fits max_len (DFrame f) = true ->
+  exists b n, encode_frame withlen max_len f = Some b /\
+    0 <= n <= zlen (close_reason f) /\
+    (forall r, try_next (b ++ r) = DOk (truncate_close n f) r) /\
+    zlen b <= max_len.
+Proof. exact close_roundtrip. Qed.
+Print Assumptions C10_close_roundtrip.
+
+(** Nothing is cut when there is room for the whole reason. *)
+Theorem C10_close_reason_intact : forall max_len extra len sl,
+  Varint.size len = Some sl -> 0 <= len -> 0 <= extra -> 0 <= sl ->
+  1 + extra + sl + len <= max_len ->
+  close_reason_len max_len extra len = Some len.
+Proof. exact close_reason_intact. Qed.
+Print Assumptions C10_close_reason_intact.
+
+(** [wf_ranges] is what every non-empty ascending, separated range list below 2^62 — the content
+    of an [ArrayRangeSet] — satisfies. *)
+Theorem C10_sorted_ranges_wf : forall rs,
+  rs <> [] -> sorted_asc 0 rs = true ->
+  (forall s e, hd_error (rev rs) = Some (s, e) -> e <= 2 ^ 62) ->
+  wf_ranges rs = true.
+Proof. exact FramesRanges.sorted_asc_wf_ranges. Qed.
+Print Assumptions C10_sorted_ranges_wf.
+
+(** Whole payloads: [Iter] over the concatenated encodings returns exactly the frames. *)
+Theorem C10_frames_payload_roundtrip : forall max_len fs,
+  fs <> [] -> Forall (fun f => wf_frame f = true /\ is_close f = false) fs ->
+  exists p, encode_all max_len fs = Some p /\ iter p = Some (map IFrame fs).
+Proof. exact payload_roundtrip. Qed.
+Print Assumptions C10_frames_payload_roundtrip.
+
+(** Decoder totality with bounds: on arbitrary bytes [try_next] returns a frame and a strict
+    suffix of its input, or one of the three [IterErr]s; the checked [u64] additions of
+    [scan_ack_blocks] never overflow ([DPanic]) and the loop fuel (a model artefact) never runs
+    out ([E_FUEL] is not an [is_err]). *)
+Theorem C10_frame_decode_total : forall bs,
+  all_bytes bs = true ->
+  match try_next bs with
+  | DOk f r => exists pre, bs = pre ++ r /\ (1 <= length pre)%nat
+  | DErr e => is_err e
+  | DPanic => False
+  end.
+Proof. exact try_next_total. Qed.
+Print Assumptions C10_frame_decode_total.
+
+(** An ACK accepted by [scan_ack_blocks] is iterated by [AckIter] without underflow or failed
+    [unwrap]; the ranges are inside [0, largest], highest first and pairwise separated. *)
+Theorem C10_ack_iter_safe : forall bs largest delay additional ecn r,
+  all_bytes bs = true ->
+  try_next bs = DOk (Ack largest delay additional ecn) r ->
+  exists lo rs, ack_ranges largest additional = AOk ((lo, largest) :: rs) /\
+                0 <= lo <= largest /\ Forall (range_ok lo) rs.
+Proof. exact ack_iter_safe. Qed.
+Print Assumptions C10_ack_iter_safe.
+
+(** [Iter] over arbitrary bytes: every item is a frame (whose ACK ranges can be walked) or an
+    [InvalidFrame] error; no panic, no fuel exhaustion; and the whole decode operation observed
+    through the hook is defined. *)
+Theorem C10_frame_iter_total : forall bs last,
+  all_bytes bs = true -> Forall item_ok (iter_all (length bs) bs last).
+Proof. intros bs last H. apply iter_all_ok; [exact H|apply le_n]. Qed.
+Print Assumptions C10_frame_iter_total.
+
+Theorem C10_frame_decode_never_panics : forall bs,
+  all_bytes bs = true -> exists o, decode_out bs = Some o.
+Proof. exact decode_never_panics. Qed.
+Print Assumptions C10_frame_decode_never_panics.
+
+(** Non-vacuity. *)
+Example C10_frame_example :
+  wf_frame (Stream 4 70000 true [1; 2; 3]) = true /\
+  encode_frame true 0 (Stream 4 70000 true [1; 2; 3]) = Some [15; 4; 128; 1; 17; 112; 3; 1; 2; 3] /\
+  iter [15; 4; 128; 1; 17; 112; 3; 1; 2; 3; 1] = Some [IFrame (Stream 4 70000 true [1; 2; 3]); IFrame Ping].
+Proof. vm_compute. repeat split. Qed.
+Example C10_ack_example :
+  wf_ranges [(1, 4); (5, 6); (10, 12); (14, 15)] = true /\
+  encode_ack 42 [(1, 4); (5, 6); (10, 12); (14, 15)] None = Some [2; 14; 42; 3; 0; 1; 1; 3; 0; 0; 2] /\
+  ack_ranges 14 [0; 1; 1; 3; 0; 0; 2] = AOk [(14, 14); (10, 11); (5, 5); (1, 3)].
+Proof. vm_compute. repeat split. Qed.
+Example C10_close_example :
+  encode_frame true 10 (CloseApp 7 [65; 66; 67; 68; 69; 70; 71; 72]) = Some [29; 7; 7; 65; 66; 67; 68; 69; 70; 71] /\
+  try_next [29; 7; 7; 65; 66; 67; 68; 69; 70; 71; 1] = DOk (CloseApp 7 [65; 66; 67; 68; 69; 70; 71]) [1] /\
+  encode_frame true 10 (CloseApp 16384 [65; 66; 67; 68; 69; 70; 71; 72]) = Some [29; 128; 0; 64; 0; 4; 65; 66; 67; 68].
+Proof. vm_compute. repeat split; reflexivity. Qed.
+Example C10_decode_error_example :
+  decode_out [1; 2; 5; 0; 0; 9] = Some [0; 1; -1; 3; 2] /\ decode_out [] = Some [1].
+Proof. vm_compute. split; reflexivity. Qed.
+
+(** * Packet headers (Model/Header.v: [Header::encode], [PartialEncode::finish],
+    [ProtectedHeader::decode], [PartialDecode::new] / [finish]; plaintext headers) *)
+
+(** Every well-formed header (relative to the receiver's local CID length, supported versions and
+    grease bit) with a payload of admissible size encodes, and decoding the packet followed by
+    arbitrary trailing bytes returns the same header, header length and payload length. Initial /
+    Handshake / 0-RTT packets end exactly at their encoded Length; Retry, Short and Version
+    Negotiation packets extend to the end of the datagram. *)
+Theorem C10_header_roundtrip : forall lcl grease versions h payload rest,
+  Header.wf_header lcl grease versions h = true -> Header.size_ok h payload = true ->
+  exists hl pk, Header.encode_packet h payload = Some (hl, pk) /\
+    Header.decode_packet lcl grease versions (pk ++ rest) =
+    Header.expected_decode h hl pk payload rest.
+Proof. exact HeaderProofs.header_roundtrip. Qed.
+Print Assumptions C10_header_roundtrip.
+
+(** Coalesced packets split at exactly the encoded boundary: the packet length reported is the
+    offset of the end of the Length field plus the encoded Length, which is the length of the
+    encoded packet; the first packet is [pk] and the remainder handed back is [rest], untouched. *)
+Theorem C10_coalesced_split_exact : forall lcl grease versions h payload rest,
+  Header.wf_header lcl grease versions h = true -> Header.size_ok h payload = true ->
+  Header.has_length h = true ->
+  exists hl pk, Header.encode_packet h payload = Some (hl, pk) /\
+    exists hl' pl ok h',
+      Header.decode_packet lcl grease versions (pk ++ rest) =
+        Header.DOk (zlen pk) (if zlen rest =? 0 then -1 else zlen rest)
+                   (Header.pnl_of h + zlen payload) hl' pl ok h' /\
+      zlen pk = (hl - Header.pnl_of h) + (Header.pnl_of h + zlen payload) /\
+      firstn (Z.to_nat (zlen pk)) (pk ++ rest) = pk /\ skipn (Z.to_nat (zlen pk)) (pk ++ rest) = rest.
+Proof. exact HeaderProofs.coalesced_split_exact. Qed.
+Print Assumptions C10_coalesced_split_exact.
+
+Example C10_header_example :
+  Header.wf_header 8 false [1] (Header.HInitial 1 [6; 184; 88; 236; 111; 128; 69; 43] [] [] 1 0) = true /\
+  Header.encode_packet (Header.HInitial 1 [6; 184; 88; 236; 111; 128; 69; 43] [] [] 1 0) [9; 9; 9] =
+    Some (19, [192; 0; 0; 0; 1; 8; 6; 184; 88; 236; 111; 128; 69; 43; 0; 0; 64; 4; 0; 9; 9; 9]) /\
+  Header.decode_packet 8 false [1]
+    ([192; 0; 0; 0; 1; 8; 6; 184; 88; 236; 111; 128; 69; 43; 0; 0; 64; 4; 0; 9; 9; 9] ++ [77; 1; 2; 3; 4; 5; 6; 7; 8; 0; 1; 2; 3]) =
+    Header.DOk 22 13 4 19 3 true (Header.HInitial 1 [6; 184; 88; 236; 111; 128; 69; 43] [] [] 1 0).
+Proof. vm_compute. repeat split. Qed.
+
+(** Connection IDs in long-header form ([ConnectionId::encode_long] / [decode_long]). *)
+Theorem C10_cid_roundtrip : forall c x,
+  zlen c <= Header.MAX_CID -> Header.decode_long (Header.cid_long c ++ x) = Some (c, x).
+Proof. exact HeaderProofs.decode_long_cid. Qed.
+Print Assumptions C10_cid_roundtrip.
+
+(** The constants the models use are the ones of the compiled crate. *)
+Example C10_constants :
+  Frames.MAX_CID_SIZE = Constants.MAX_CID_SIZE /\ Header.MAX_CID = Constants.MAX_CID_SIZE /\
+  Z.of_nat Frames.RESET_TOKEN_SIZE = Constants.RESET_TOKEN_SIZE.
+Proof. repeat split; reflexivity. Qed.
+
+(** * Transport parameters (Model/TParams.v: [TransportParameters::write] / [read]) *)
+
+(** [read (write p)] = [p] for every parameter set [p] that satisfies the representation
+    invariants and the semantic validation of [read] (for the reader's side), whatever reserved
+    ("grease") parameter is added and in whatever order the 21 supported identifiers are written
+    ([write_order] is an arbitrary permutation). Defaults are omitted by the writer and restored
+    by the reader; the reserved parameter is ignored. *)
+Theorem C10_tparams_roundtrip : forall server p g order,
+  TParams.wf_tp Constants.MAX_STREAM_COUNT server p = true -> TParams.wf_grease g = true ->
+  Permutation order (seq 0 21) ->
+  exists b, TParams.write p g order = Some b /\
+            TParams.read Constants.MAX_STREAM_COUNT server b = TParams.ROk p.
+Proof. exact (TParamsProofs.tparams_roundtrip Constants.MAX_STREAM_COUNT). Qed.
+Print Assumptions C10_tparams_roundtrip.
+
+(** The reader is total on arbitrary bytes: a parameter set, Malformed or IllegalValue; the loop
+    fuel of the model never runs out. *)
+Theorem C10_tparams_read_total : forall msc server bs,
+  match TParams.read msc server bs with
+  | TParams.ROk _ | TParams.RErr TParams.Malformed | TParams.RErr TParams.Illegal => True
+  | TParams.RErr TParams.OutOfFuel => False
+  end.
+Proof. exact TParamsProofs.read_total. Qed.
+Print Assumptions C10_tparams_read_total.
+
+Example C10_tparams_example :
+  let p := {| TParams.ints := [30000; 1472; 1048576; 65536; 65536; 65536; 100; 3; 3; 25; 5];
+              TParams.dam := true; TParams.mdfs := Some 65535; TParams.iscid := Some [1; 2; 3; 4];
+              TParams.gqb := true; TParams.mad := Some 1000; TParams.odcid := Some [9; 9];
+              TParams.rscid := None; TParams.srt := Some (repeat 7 16);
+              TParams.pa := Some {| TParams.pa_v4 := Some ([127; 0; 0; 1], 443); TParams.pa_v6 := None;
+                                    TParams.pa_cid := [5; 6]; TParams.pa_tok := repeat 8 16 |} |} in
+  let order := [20; 3; 15; 0; 11; 7; 19; 1; 12; 5; 16; 2; 13; 9; 17; 4; 14; 6; 18; 8; 10]%nat in
+  TParams.wf_tp Constants.MAX_STREAM_COUNT false p = true /\
+  TParams.MSC = Constants.MAX_STREAM_COUNT /\
+  match TParams.write p (Some (58, [1; 2; 3])) order with
+  | Some b => TParams.read Constants.MAX_STREAM_COUNT false b = TParams.ROk p /\
+              TParams.read Constants.MAX_STREAM_COUNT true b = TParams.RErr TParams.Illegal
+  | None => False
+  end.
+Proof. vm_compute. repeat split; reflexivity. Qed.
+
+(** * Address-validation / Retry tokens (Model/Token.v: payload layout of [Token::encode] /
+    [Token::decode]) *)
+
+(** For ANY sealing and opening functions such that opening a sealed plaintext under the same nonce
+    returns it (the AEAD stays an explicit premise), decoding an encoded well-formed token returns
+    that token (type, address, port, original destination CID, issue time, nonce). *)
+Theorem C10_token_roundtrip :
+  forall (seal : list Z -> list Z -> list Z) (open : list Z -> list Z -> option (list Z)),
+  (forall n x, open n (seal n x) = Some x) ->
+  forall t, Token.wf_token t = true -> Token.decode open (Token.encode seal t) = Some (Some t).
+Proof. exact TokenProofs.token_roundtrip. Qed.
+Print Assumptions C10_token_roundtrip.
+
+(** The transparent AEAD under which the correspondence runs satisfies that premise. *)
+Theorem C10_token_toy_aead : forall n x, Token.toy_open n (Token.toy_seal n x) = Some x.
+Proof. exact TokenProofs.toy_open_seal. Qed.
+Print Assumptions C10_token_toy_aead.
+
+Example C10_token_example :
+  let t := {| Token.nonce := [1; 2; 3; 4; 5; 6; 7; 8; 9; 10; 11; 12; 13; 14; 15; 16];
+              Token.body := Token.Retry (Token.V4 [127; 0; 0; 1]) 4433 [9; 8; 7] 1700000000 |} in
+  Token.wf_token t = true /\
+  Token.decode Token.toy_open (Token.encode Token.toy_seal t) = Some (Some t) /\
+  Token.decode Token.toy_open (removelast (Token.encode Token.toy_seal t)) = Some None.
+Proof. vm_compute. repeat split; reflexivity. Qed.
